@@ -129,7 +129,7 @@ def cb_desc(fn, conn):
     if fn is None:
         return []
     if isinstance(fn, RetrySender):
-        return [5, int(fn.seq_message), 1 if fn.done else 0, cb_desc(fn.callback, conn)]
+        return [5, int(fn.seq_message), 1 if getattr(fn, "done", False) else 0, cb_desc(fn.callback, conn)]
     uid = getattr(fn, "_verif_id", None)
     if uid is not None:
         return [0, uid]
